@@ -25,6 +25,21 @@ type c11Case struct {
 	Args2 []Val  `json:"args2,omitempty"`
 	Chain bool   `json:"chain,omitempty"` // pure: the second call is made on the first call's result
 	Wrap  bool   `json:"wrap,omitempty"`  // call: every argument a is written true.then(a, 0), a nested call with arguments of its own
+	ExprA string `json:"expr_a,omitempty"` // same-value: two expressions for one value (the first of the family is its literal form)
+	ExprB string `json:"expr_b,omitempty"`
+	Nest  bool   `json:"nest,omitempty"` // same-value: compared one level deeper ([[A]].contains([B]))
+}
+
+// c11Families: different ways to arrive at the same value; contains() is structural equality, so it must not
+// matter which of them built the element and which the argument.
+var c11Families = [][]string{
+	{"[]", "[1].slice(1)", "[1].slice(0, 0)", "[].reverse()", "[].shuffle()", "[].append()", "[].prepend()", "[].slice(0)", "[1, 2].slice(5)"},
+	{"[1]", "[1, 2].slice(0, 1)", "[].append(1)", "[].prepend(1)", "[1].reverse()", "[2, 1].slice(1)", "[1].shuffle()"},
+	{`"ab"`, `"a" + "b"`, `"ba".reverse()`, `"AB".lower()`, `" ab ".trim()`, `"ab".str()`},
+	{"2", "1 + 1", `"ab".len()`, "2.5.int()", "(-2).abs()"},
+	{"2.0", "1.0 + 1.0", "2.float()", "4.0 / 2.0"},
+	{"{}", "{a: {}}.a"},
+	{"nil", "true.then(nil)", "false.then(1)"},
 }
 
 var c11MaxArgs = map[string]int{"len": 0, "split": 1, "raw": 0, "trim": 1, "trimLeft": 1, "trimRight": 1, "upper": 0, "lower": 0, "capitalize": 0, "reverse": 0,
@@ -203,6 +218,33 @@ func c11Check(cs c11Case) (ok bool, sig, expected, observed string) {
 		}
 		if o.Kind != KOut || o.Out != want {
 			return false, "not-pure/" + cs.Fn + "+" + cs.Fn2, expected, o.String()
+		}
+		return true, "", expected, o.String()
+	case "same-value":
+		lit := ""
+		for _, f := range c11Families {
+			for _, e := range f {
+				if e == cs.ExprA {
+					lit = f[0]
+				}
+			}
+		}
+		wrapE := func(x string) string { return x }
+		if cs.Nest {
+			wrapE = func(x string) string { return "[" + x + "]" }
+		}
+		src := "{{ [" + wrapE(cs.ExprA) + "].contains(" + wrapE(cs.ExprB) + ") }}|{{ [" + wrapE(lit) + "].contains(" + wrapE(lit) + ") }}|{{ [" + wrapE(cs.ExprA) + ", 1].contains(0) }}"
+		o := runString(src, nil)
+		expected = "contains is structural equality: the three results of " + strconvQuote(src) + " are true, true, false whichever way the equal values were built"
+		if o.Kind == KPanic || o.Kind == KHang {
+			return false, o.Kind + "@" + o.Site, expected, o.String()
+		}
+		if o.Kind != KOut {
+			return true, "", expected, o.String() // one of the building expressions is not available: nothing to compare
+		}
+		parts := strings.Split(o.Out, "|")
+		if len(parts) != 3 || parts[0] != parts[1] || parts[0] == parts[2] {
+			return false, "contains-depends-on-how-the-value-was-built", expected, o.String()
 		}
 		return true, "", expected, o.String()
 	case "site":
@@ -592,6 +634,20 @@ func c11Run(c *Ctx) {
 				for _, args := range [][]Val{nil, {vInt(1)}, {vStr("a")}} {
 					if !do(c11Case{Mode: "site", Recv: r1, Recv2: r2, Fn: fn, Args: args}, 0) {
 						return
+					}
+				}
+			}
+		}
+	}
+	// structural equality does not depend on how equal values were built
+	if c.Mine() {
+		for _, fam := range c11Families {
+			for _, a := range fam {
+				for _, b := range fam {
+					for _, nest := range []bool{false, true} {
+						if !do(c11Case{Mode: "same-value", ExprA: a, ExprB: b, Nest: nest}, 0) {
+							return
+						}
 					}
 				}
 			}
